@@ -274,6 +274,47 @@ theorem history_counterexample_without_truncate : ¬ HistoryKeepsSavedSnapshot .
   simp only [crashKill, crashPower]
   decide
 
+/-! ## 3c. One long-lived offsetDB: the formatting buffer carried from save to save -/
+
+/-- full statement for a reset point `r`: saves on ONE object (its buffer `o.buf` and the file
+    system carried along), each with its own snapshot, any failure pattern: the offsets file holds
+    what it held before or the rendering of exactly ONE of the snapshots — the bytes a save writes
+    depend only on the snapshot it took, not on how earlier saves ended. -/
+def ObjectHistoryKeepsSavedSnapshot (r : Reset) : Prop :=
+  ∀ (fs0 : FS) (buf0 : Bytes) (saves : List (Bytes × List Op)) (fs : FS) (buf : Bytes),
+    runObjHist .fileFixed r fs0 buf0 saves = some (fs, buf) →
+    (crashKill fs = crashKill fs0 ∨ ∃ sv ∈ saves, crashKill fs = some sv.1) ∧
+    (crashPower fs = crashPower fs0 ∨ ∃ sv ∈ saves, crashPower fs = some sv.1)
+
+/-- **the code**: `o.buf = o.buf[:0]` right before the formatting loop -/
+theorem object_history_keeps_saved_snapshot : ObjectHistoryKeepsSavedSnapshot .beforeFormat := by
+  intro fs0 buf0 saves fs buf hr
+  have h := objHist_eq_hist .fileFixed saves fs0 buf0
+  rw [hr] at h
+  exact hist_inv .fileFixed trivial saves fs0 fs h.symm
+
+/-- what every save hands to `write` is its own snapshot, whatever the buffer held -/
+theorem written_is_own_snapshot (buf snap : Bytes) : saveData .beforeFormat buf snap = snap := rfl
+
+/-- a failed write (temp file discarded, good file kept), then a successful save of another snapshot -/
+example : (runObjHist .fileFixed .beforeFormat (init (some [9])).fs []
+    [([1, 2], [.openTrunc true, .write 0 false, .unlink true, .close true]),
+     ([3], [.openTrunc true, .write 1 true, .fsync true, .rename true, .close true])]).map (·.1.cur)
+    = some ⟨some [3], some [3]⟩ := by decide
+
+/-- **counterexample** (seeded change C07-f: the reset moved to the end of `save`): the failed save
+    leaves `1 2` in the buffer, the next save writes `1 2 3` — every source twice, "duplicate
+    inode" on load — and renames it over the good file. -/
+theorem object_history_counterexample_reset_at_end : ¬ ObjectHistoryKeepsSavedSnapshot .atEnd := by
+  intro h
+  have := h (init (some [9])).fs []
+    [([1, 2], [.openTrunc true, .write 0 false, .unlink true, .close true]),
+     ([3], [.openTrunc true, .write 3 true, .fsync true, .rename true, .close true])]
+    ⟨⟨some [1, 2, 3], some [1, 2, 3]⟩, absent⟩ [] (by decide)
+  revert this
+  simp only [crashKill, crashPower]
+  decide
+
 /-! ## 4. Together: what a restarted plugin loads after any save -/
 
 /-- **the property**: previous snapshot `told` in place, a save of `tnew` runs with any failure
